@@ -178,6 +178,8 @@ class Generator:
             rng = self.src.impl_block_containing(r"^impl<'bump, T: 'bump> Vec<'bump, T>$", src_name)
         elif impl == 'string':
             rng = self.src.impl_block_containing(r"^impl<'bump> String<'bump>$", src_name)
+        elif impl == 'intoiterdrop':
+            rng = self.src.impl_block_containing(r"^impl<'bump, T> Drop for IntoIter<'bump, T>$", src_name)
         elif impl == 'dfnext':
             rng = self.src.impl_block_containing(r"^impl<'a, 'bump, T, F> Iterator for DrainFilter<'a, 'bump, T, F> where", src_name)
         elif impl == 'dfdrop':
@@ -201,6 +203,7 @@ class Generator:
             'kind': 'footer' if impl == 'footer' else ('vec' if impl == 'vec' else (spec.get('kind') or impl)),
             'guard': spec.get('guard'),
             'strip_nested': spec.get('strip_nested'),
+            'drop_takes_state': spec.get('drop_takes_state'),
             'footer_fields': [n for n, _, _, _ in self.footer_fields],
             'self_cells': self.bump_cells if impl in ('bump', 'bump1', 'drop') else (['footer'] if impl == 'iter' else []),
             'w_funcs': self.w_funcs,
